@@ -1,7 +1,7 @@
 use std::cell::RefCell;
 use std::collections::HashMap;
 use std::fmt::{Display, Formatter};
-use std::sync::{Arc, Mutex, MutexGuard};
+use std::sync::{Arc, Mutex};
 
 use lazy_static::lazy_static;
 
@@ -307,24 +307,23 @@ impl LunarMonth {
   }
 
   pub fn from_ym(year: isize, month: isize) -> Self {
-    let instance: Self;
     let key: String = format!("{}_{}", year, month);
-    let mut map: MutexGuard<HashMap<String, Vec<f64>>> = LUNAR_MONTH_CACHE.lock().unwrap();
-    let vec: Option<&Vec<f64>> = map.get(&key);
-    match vec {
-      Some(v) => instance = Self::from_cache((*v).to_owned()),
+    let cached: Option<Vec<f64>> = LUNAR_MONTH_CACHE.lock().unwrap().get(&key).cloned();
+    match cached {
+      Some(v) => Self::from_cache(v),
       None => {
-        instance = Self::new(year, month).unwrap();
+        // 在锁外构造，非法参数引发的panic不会毒化缓存锁
+        let instance: Self = Self::new(year, month).unwrap();
         let mut l: Vec<f64> = Vec::new();
         l.push(instance.get_year() as f64);
         l.push(instance.get_month_with_leap() as f64);
         l.push(instance.get_day_count() as f64);
         l.push(instance.get_index_in_year() as f64);
         l.push(instance.get_first_julian_day().get_day());
-        map.insert(key, l);
+        LUNAR_MONTH_CACHE.lock().unwrap().insert(key, l);
+        instance
       }
     }
-    return instance;
   }
 
   pub fn get_lunar_year(&self) -> LunarYear {
